@@ -420,6 +420,9 @@ class Mineral:
 
             strain_rate = (velocity_gradient + velocity_gradient.transpose()) / 2
             strain_rate_max = np.abs(la.eigvalsh(strain_rate)).max()
+            if strain_rate_max == 0:
+                # No deformation: avoid 0/0 in the nondimensionalisation below.
+                strain_rate_max = 1.0
             deformation_gradient, orientations, fractions = _utils.extract_vars(
                 y, self.n_grains
             )
